@@ -21,6 +21,7 @@ func runOtherWorker(engine string, wa workerArgs) error {
 	case "cluster":
 		return cluster.RunWorker(wa.prop, wa.seed, wa.worker, wa.cases, wa.scratch, wa.out, wa.extra)
 	case "ctlsim":
+		ctlsim.NetMode = wa.extra["net"] == "1"
 		return ctlsim.RunWorker(wa.prop, wa.seed, wa.worker, wa.cases, wa.out)
 	}
 	return fmt.Errorf("unknown engine %q", engine)
